@@ -9,7 +9,7 @@ from core import MachineryError, PY, REPO, VERIF, Verdict, replay_histories, req
 from registry import graph_histories
 
 NAME = {"na": "vnamealpha", "nb": "vnamebeta"}
-SYM = {"sa": "vsya", "sb": "vsyb", "s c": "vs yc", "#5": 5, "na": "vnamealpha"}
+SYM = {"sa": "vsya", "sb": "vsyb", "s c": "vs yc", "#5": 5, "na": "vnamealpha", "s~c": "vs\tyd"}
 
 
 class NamesDriver:
@@ -71,6 +71,11 @@ class NamesDriver:
         after = self._snapshot()
         tag = "%s-%s" % (c, op)
         argshape = "name=%s,symbol=%s" % ("none" if not ev["n"] else "given", "none" if not ev["s"] else ("malformed" if ev["s"] in ("s c", "#5") else "given"))
+        if out != ev["out"] and ev["s"] == "s~c" and not self._taken(ev, before, ctx):
+            # a questionable symbol: TLC explores both the accepting and the refusing branch; this is the other one.
+            # Atomicity / faithful binding are still judged below according to what the library actually did.
+            stats["maybe-branch-not-taken"] = stats.get("maybe-branch-not-taken", 0) + 1
+            ev = dict(ev, out=out)
         if out != ev["out"]:
             if ev["out"] == "error":
                 why = self._why(ev)
@@ -138,6 +143,14 @@ class NamesDriver:
         if res[0] is not res[1]:
             mm.append(self._mm("%s-lookup:repeat-differs" % ev["c"], "resolve_symbol(%r) gave %r then %r" % (sym, res[0], res[1])))
         return mm
+
+    def _taken(self, ev, before, ctx):
+        """is the declared name or symbol already bound to ANOTHER object (then refusal is mandatory, whatever the symbol)"""
+        obj = ctx["obj"].get(ev["k"])
+        n = NAME.get(ev["n"]) if ev["n"] else None
+        s = SYM.get(ev["s"]) if ev["s"] else None
+        tn, ts = ("uname", "usym") if ev["c"] == "unit" else ("pname", "psym")
+        return (n is not None and n in before[tn] and before[tn][n] is not obj) or (isinstance(s, str) and s in before[ts] and before[ts][s] is not obj)
 
     def _was_anon(self, ev, before, obj):
         if obj is None:
